@@ -38,6 +38,12 @@ good = {"kind": "t", "cap": 4, "thr": True, "dir": "up", "ev": [it(1, 0, "na"), 
 cases = {"uncorrupted": (good, "ok")}
 c = copy.deepcopy(good); c["ev"][1]["rank"] = -0 ; c["ev"][2]["rank"] = 0; c["ev"][1]["rank"] = 3
 cases["rank corrupted (objective falls)"] = (c, "Monotone")
+c = copy.deepcopy(good); c["rank0"] = 2; c["fromStart"] = True
+cases["first iteration falls below the starting model (fromStart)"] = (c, "Monotone")
+c = copy.deepcopy(good); c["rank0"] = 2
+cases["first iteration below rank0, recorder does not claim fromStart"] = (c, "ok")
+c = copy.deepcopy(good); c["rank0"] = 0; c["fromStart"] = True
+cases["first iteration equal to the starting model (fromStart)"] = (c, "ok")
 c = copy.deepcopy(good); c["ev"] = c["ev"][:-1]
 cases["Stop event dropped"] = (c, "Stop.missing")
 c = copy.deepcopy(good); c["ev"].insert(1, it(1, 0, "na"))
